@@ -26,7 +26,8 @@ U64 == {"0", "1", "2^63-1", "2^63", "2^64-1"}
 U32 == {"0", "1", "2", "3", "2^32-1"}
 Count == {"0", "1", "2", "17", "300"}
 Presence == {"absent", "present"}
-PathShape == {"empty", "wallet", "wallet-slash", "slash", "slash-acct", "badregex", "unclosed-group", "long", "unknown", "dotstar", "unicode", "two-slashes"}
+PathShape == {"empty", "wallet", "wallet-slash", "slash", "slash-acct", "badregex", "unclosed-group", "long", "unknown", "dotstar", "unicode", "two-slashes",
+              "fresh-acct"}      \* an account expression the daemon has never been sent before (a new one every time)
 Str == {"empty", "wallet-only", "valid", "unknown", "no-wallet", "badregex", "long", "unicode", "exists"}
 \* content classes of a passphrase (the length class is a separate field): random bytes, all zero, all 0xff, printable, and text
 \* mixing invalid UTF-8 with combining marks (passphrases are Unicode-normalised by the keystore encryptor)
